@@ -103,6 +103,14 @@ func c01ValidBody(c *vk.Ctx, cs c01Case) {
 	if err != nil {
 		c.Failf("c01.valid-rejected", "parser rejects the serialisation of a valid bundle: %v", err)
 	}
+	// (a') the same bytes through readers that return short reads
+	if !vfHasMultiMap(s) {
+		if why := vfReaderIndependent(bytes1, true, bytes1); why != "" {
+			c.Failf("c01.reader-dependent", "%s", why)
+		}
+	} else if why := vfReaderIndependent(bytes1, true, nil); why != "" {
+		c.Failf("c01.reader-dependent", "%s", why)
+	}
 	// (b) field-wise equality
 	if d := vfPrimaryEq(&b.PrimaryBlock, &b2.PrimaryBlock); d != "" {
 		c.Failf("c01.roundtrip-field", "primary block field differs after round trip: %s", d)
@@ -128,7 +136,7 @@ func c01ValidBody(c *vk.Ctx, cs c01Case) {
 func TestVerifC01Valid(t *testing.T) {
 	vfRegisterCustom()
 	u := vk.Unit{Property: "C01", Name: "c01.valid", Quick: 4000, Thorough: 240000,
-		Rule: "valid bundle descriptions drawn by the structured generator (all endpoint forms, admissible flag combinations, CRC none/16/32 per block, fragments, 0..7 extension blocks of all registered + unknown types, payload classes up to >2 MiB); oracle: independent encoder byte-equality, parse, field equality, byte-identical re-serialisation; non-trivial = >=1 extension block or payload >= 24 bytes; distinct by case hash"}
+		Rule: "valid bundle descriptions drawn by the structured generator (all endpoint forms, admissible flag combinations, CRC none/16/32 per block, fragments, 0..7 extension blocks of all registered + unknown types, payload classes up to >2 MiB); oracle: independent encoder byte-equality, parse (also through readers that return short reads: one byte at a time and two cyclic patterns of 1..9 bytes, same verdict and same bundle), field equality, byte-identical re-serialisation; non-trivial = >=1 extension block or payload >= 24 bytes; distinct by case hash"}
 	vk.Check(t, u, func(t *rapid.T) c01Case {
 		return c01Case{Registered: true, Spec: vk.GenBundle(vk.GenOpts{MaxPayload: 3 << 20}).Draw(t, "bundle")}
 	}, c01ValidBody)
@@ -218,7 +226,7 @@ func (m *mutCase) mutate() (seed, mutant []byte, stale bool) {
 func TestVerifC01Mutants(t *testing.T) {
 	vfRegisterCustom()
 	u := vk.Unit{Property: "C01", Name: "c01.mutants", Quick: 12000, Thorough: 600000,
-		Rule: "valid encodings (independent encoder) with 1..4 item-level mutations (non-minimal widths, integer edits, array-length edits, swapped/duplicated/deleted items, trailing bytes inside byte strings and inside block data, stale CRCs) and CRCs re-computed; oracle O2 on every mutant the parser accepts; non-trivial = mutant accepted and different from its seed; distinct by mutant bytes"}
+		Rule: "valid encodings (independent encoder) with 1..4 item-level mutations (non-minimal widths, integer edits, array-length edits, swapped/duplicated/deleted items, trailing bytes inside byte strings and inside block data, stale CRCs) and CRCs re-computed; the parser's verdict must not depend on how the reader chunks the bytes; oracle O2 on every mutant the parser accepts; non-trivial = mutant accepted and different from its seed; distinct by mutant bytes"}
 	vk.Check(t, u, genMutCase, func(c *vk.Ctx, m mutCase) {
 		seed, mut, _ := m.mutate()
 		if mut == nil {
@@ -226,6 +234,11 @@ func TestVerifC01Mutants(t *testing.T) {
 			return
 		}
 		b, err := vfParse(mut)
+		if !vfNearExpiry(mut) {
+			if why := vfReaderIndependent(mut, err == nil, nil); why != "" {
+				c.Failf("c01.reader-dependent", "%s (mutant %x)", why, vfTrunc(mut))
+			}
+		}
 		if err != nil {
 			c.Class("mutant rejected")
 			return
